@@ -171,3 +171,9 @@ package common
 
 // Fmt (a package-level function variable wrapping fmt.Sprintf) only reads its arguments.
 //@ trusted func Fmt(format string, a []interface{}) (r string)
+
+//@ func (bA *BitArray) ToProto() (r *kprotobits.BitArray)
+//@   for C18
+//@   requires bA != nil ==> wfBits(bA)
+//@   ensures (bA == nil || len(bA.Elems) == 0) ==> r == nil
+//@   ensures [fieldsCopied] bA != nil && len(bA.Elems) != 0 ==> fresh(r) && r.Bits == bA.Bits && r.Elems == bA.Elems
